@@ -17,8 +17,21 @@ TRUSTED = [
 ]
 
 
+def diff_reduces_subtrahend():
+    """source fact: does Pointset_Powerset<NNC_Polyhedron>::difference_assign call y.omega_reduce()?"""
+    import re
+    try:
+        txt = open(os.path.join(common.REPO, "src", "Pointset_Powerset.cc")).read()
+    except OSError:
+        return True
+    m = re.search(r"Pointset_Powerset<PPL::NNC_Polyhedron>\s*::difference_assign\(.*?\n}\n", txt, re.S)
+    return bool(m and re.search(r"\by\.omega_reduce\(\)", m.group(0)))
+
+
 def site_of(kind, line):
     t = line.split(" ")
+    if kind.startswith("hurry/const-operand-collapsed"):
+        return "Powerset::omega_reduce() const hurry-up branch"
     if kind.startswith("cw:"):
         return "Determinate::" + kind.split("/")[0][3:]
     if kind.startswith("qry:"):
@@ -47,6 +60,8 @@ def run(chk):
     ]
     chk.prove(COQ)
     os.environ.setdefault("VERIF_JUDGE_BUDGET", "2.0")
+    os.environ["VERIF_C09_DIFF_REDUCES_Y"] = "1" if diff_reduces_subtrahend() else "0"
+    chk.extra["source_fact_difference_reduces_subtrahend"] = diff_reduces_subtrahend()
     common.coq_extract("Extract_pset.v", ["pset.ml", "pset.mli"], deps=COQ + ["Extract/Extract_pset.v"])
     judge = common.ocaml_build("judge_pset", ["gen/pset.mli", "gen/pset.ml", "zutil_pset.ml", "judge_pset.ml"])
     exe = common.compile_harness("run_pset.cc")
